@@ -13,7 +13,7 @@ RULE = ('per case 1-4 received bundles, each with one of the 2^5 combinations of
         'are decoded by the reference decoder and matched to their subject. Non-trivial: at least one report flag set with a report-to '
         'endpoint; distinct = digest of the case descriptors.')
 COMPONENTS = bc.COMPONENTS
-PROBES = ('out.deliver', 'out.forward', 'out.forward-frag', 'out.forward-impossible', 'out.forward-cl-error', 'out.forward-lookalike', 'out.deliver-fragments', 'out.delete', 'out.noroute', 'out.secfail', 'out.duplicate', 'rpt.seen', 'rpt.with_time',
+PROBES = ('out.deliver', 'out.forward', 'out.forward-frag', 'out.forward-impossible', 'out.forward-cl-error', 'out.forward-lookalike', 'out.deliver-fragments', 'out.delete', 'out.noroute', 'out.secfail', 'out.duplicate', 'rpt.seen', 'rpt.with_time', 'rpt.fragmented',
           'probe.requested_but_missing')
 ASSUMPTIONS = ['a transmit route towards the report-to endpoint always exists', 'the statement is read as "only if": a missing report is counted as a probe, not a violation']
 CHUNK = 25
@@ -46,7 +46,7 @@ def gen(ch, tier):
             if ch.coin('flag', 1, 2):
                 flags |= bit
         cases.append(dict(outcome=ch.choice('outcome', ('deliver', 'deliver-fragments', 'forward', 'forward-frag', 'forward-lookalike', 'forward-impossible', 'forward-cl-error', 'delete', 'noroute', 'secfail', 'duplicate')),
-                          flags=flags, report_to=ch.choice('rpt', ('dtn://rpt/', 'dtn://rpt/', 'dtn:none', 'ipn:9.1')),
+                          flags=flags, report_to=ch.choice('rpt', ('dtn://rpt/', 'dtn://rpt/', 'dtn:none', 'ipn:9.1', 'dtn://rsmall/')),
                           source=ch.choice('src', ('dtn://src/', 'ipn:3.1', 'ipn:977000.3.1')), seqno=cix, plen=ch.choice('plen', (5, 40, 400)), tag=cix + 1,
                           crc=ch.choice('crc', (1, 2))))
     return dict(scenario='bp_reports', cases=cases)
@@ -71,7 +71,7 @@ class Run:
 def execute(plan, sched, verbose=False):
     nodes = {'n1': dict(node_id='dtn://n1/',
                         rx_routes=[['^dtn://n1/.*$', 'deliver'], ['^dtn://far/.*$', 'forward'], ['^dtn://mtu/.*$', 'forward'], ['^dtn://tiny/.*$', 'forward'], ['^dtn://broken/.*$', 'forward'], ['^dtn://n10/.*$', 'forward'], ['^dtn://drop/.*$', 'delete']],
-                        tx_routes=[['^dtn://mtu/.*$', 'dtn://next/', 300, None], ['^dtn://tiny/.*$', 'dtn://next/', 30, None], ['^dtn://broken/.*$', 'dtn://dead/', None, 'FAIL'], ['.*', 'dtn://next/', None, None]])}
+                        tx_routes=[['^dtn://rsmall/.*$', 'dtn://next/', 90, None], ['^dtn://mtu/.*$', 'dtn://next/', 300, None], ['^dtn://tiny/.*$', 'dtn://next/', 30, None], ['^dtn://broken/.*$', 'dtn://dead/', None, 'FAIL'], ['.*', 'dtn://next/', None, None]])}
     har = bp_net.BpHarness(dict(nodes=nodes), sched, verbose)
     run = Run()
     run.har = har
@@ -128,6 +128,35 @@ def _drive(run, plan, har):
             return
         reports = [dec for dec in decoded if bc.is_admin(dec)]
         others = [dec for dec in decoded if not bc.is_admin(dec)]
+        # a report that does not fit the MTU of the route to the report-to endpoint leaves as fragments: judge the reassembled report,
+        # and each piece leaves once
+        pieces = {}
+        whole = []
+        for rpt in reports:
+            rpri = rpt['primary']
+            if not rpri['flags'] & rfc9171.FLAG_IS_FRAGMENT:
+                whole.append(rpt)
+                continue
+            stats['rpt.fragmented'] = 1
+            slot = pieces.setdefault((rpri['source'], rpri['create_time'], rpri['seqno'], rpri['total_adu_len']), {})
+            if rpri['frag_offset'] in slot:
+                run.viols.append(('duplicate', 'report-fragment-repeated', '%s: the fragment at offset %d of one status report left the node more than once (%d administrative bundles for one processed bundle)' % (
+                    where, rpri['frag_offset'], len(reports))))
+                return
+            slot[rpri['frag_offset']] = rpt
+        for (rkey, slot) in pieces.items():
+            data = bytearray(rkey[3])
+            covered = 0
+            for (off, rpt) in sorted(slot.items()):
+                part = rfc9171.payload(rpt)
+                data[off:off + len(part)] = part
+                covered += len(part)
+            if covered != rkey[3] or len(data) != rkey[3]:
+                run.viols.append(('content', 'report-fragments-incomplete', '%s: the fragments of a status report cover %d of %d octets' % (where, covered, rkey[3])))
+                return
+            first = slot[min(slot)]
+            whole.append(dict(first, blocks=[dict(blk, btsd=bytes(data)) if blk['type'] == 1 else blk for blk in first['blocks']]))
+        reports = whole
         requested = set(name for (name, bit) in FLAG_OF.items() if case['flags'] & bit)
         occurred = OCCURS[case['outcome']]
         allowed = requested & occurred if case['report_to'] != 'dtn:none' else set()
@@ -146,6 +175,7 @@ def _drive(run, plan, har):
             continue
         stats['rpt.seen'] = stats.get('rpt.seen', 0) + len(reports)
         asserted_all = set()
+        seen_sigs = set()
         for rpt in reports:
             pri = rpt['primary']
             try:
@@ -178,6 +208,10 @@ def _drive(run, plan, har):
                     run.viols.append(('content', 'crc', '%s: report block %s has CRC type %d / valid %s' % (where, blk.get('num', 'primary'), blk['crc_type'], blk['crc_ok'])))
             if case['outcome'] == 'secfail' and 'deleted' in body['asserted'] and body['reason'] not in (12, 13, 14, 15, 16):
                 run.viols.append(('content', 'reason-not-security', '%s: deletion after a security failure reported with reason %r' % (where, body['reason'])))
+            sig = (body['subject_source'], body['subject_time'], body['subject_seqno'], tuple(sorted(body['asserted'])))
+            if sig in seen_sigs:
+                run.viols.append(('duplicate', 'report-repeated', '%s: two status reports with the same subject assert the same %s' % (where, sorted(body['asserted']))))
+            seen_sigs.add(sig)
             asserted_all |= set(body['asserted'])
         if run.viols:
             return
